@@ -391,6 +391,51 @@ func driverRT(c *Ctx) {
 				c.count("rt.narrow-types-built")
 			}
 		}
+		if c.want(i) && i%32 == 9 {
+			// what was handed out stays what it was: the encodings of a wide list and of a message on it, kept while
+			// other wide lists and messages are encoded, still are their encodings afterwards
+			n := []int{1023, 1024, 1025, 1100, 1024, 2048}[g.pick(6)]
+			mkWide := func(off int) ast.ItemNode {
+				kids := make([]interface{}, n)
+				for k := range kids {
+					kids[k] = ast.NewUintNode(1, (k+off)%251)
+				}
+				return ast.NewListNode(kids...)
+			}
+			wa, wb := mkWide(0), mkWide(7)
+			ma := buildComplete(g, gm, wa, 0)
+			keptItem, keptMsg := wa.ToBytes(), ma.ToBytes()
+			copyItem, copyMsg := clone(keptItem), clone(keptMsg)
+			_ = wb.ToBytes()
+			_ = buildComplete(g, gm, wb, 0).ToBytes()
+			_ = mkWide(3).ToBytes()
+			ev := decodeEvent(copyMsg)
+			ev["ev"], ev["how"], ev["msg"] = "rt", "kept", projMsg(ma)
+			ev["keptsame"] = string(keptItem) == string(copyItem) && string(keptMsg) == string(copyMsg)
+			c.emit(i, ev)
+			c.count("rt.kept")
+		}
+		if c.want(i) && i%256 == 35 {
+			// very many encodings that come to nothing deep inside nested lists (a variable at the bottom), of ever
+			// shallower nesting - then a complete message with lists: it has bytes like any other
+			for _, x := range [][2]int{{4096, 300}, {256, 130}, {4, 130}, {1, 16}} {
+				var cur ast.ItemNode = ast.NewUintNode(2, "open9")
+				for k := 0; k < x[0]; k++ {
+					cur = ast.NewListNode(cur)
+				}
+				probe := ast.NewListNode(ast.NewASCIINode("k"), cur)
+				for k := 0; k < x[1]; k++ {
+					if len(probe.ToBytes()) != 0 {
+						break
+					}
+				}
+			}
+			am := buildComplete(g, gm, ast.NewListNode(ast.NewUintNode(1, 1), ast.NewListNode(ast.NewASCIINode("x"), ast.NewListNode())), 0)
+			ev := decodeEvent(am.ToBytes())
+			ev["ev"], ev["how"], ev["msg"] = "rt", "after-empty-encodings", projMsg(am)
+			c.emit(i, ev)
+			c.count("rt.after-empty-encodings")
+		}
 		if c.want(i) && i%8 == 6 {
 			// two frames of the same shape and different contents, one after the other through the same receive buffer
 			for v := 0; v < 2; v++ {
